@@ -26,7 +26,8 @@ EXTENDS ListView, Json, IOUtils, TLCExt
 Traces == JsonDeserialize(IOEnv.TRACE_FILE)
 Diag   == IOEnv.TRACE_DIAG = "1"
 
-VARIABLES tid, l, saved
+VARIABLES tid, l, saved,
+          fmt      \* the formatter installed on the list object: "stock" | "faulty" (a caller-supplied callback that raises)
 
 Tr == Traces[tid]
 
@@ -35,32 +36,42 @@ TInit == /\ tid \in 1..Len(Traces)
          /\ vals = IF Traces[tid].keep THEN SplitKeep(Traces[tid].mode, Traces[tid].lay)      \* discard_comments_on_read=False
                    ELSE Split(Traces[tid].mode, Traces[tid].lay)
          /\ saved = vals
-         /\ tail = "none" /\ res = "ok"
+         /\ tail = "none" /\ res = "ok" /\ fmt = "stock"
 
 Either(e) == Same(e.res) /\ e.res \in {"ok", "ValueError"}
 
+\* `vals` is the list of the list OBJECT (kept over close / abort / reenter: the same object may be entered again),
+\* `saved` the list the document holds (what a fresh parse shows; "open" makes a new object from it).
 TStep == /\ l <= Len(Tr.events)
          /\ LET e == Tr.events[l] IN
             /\ \/ e.op = "open"      /\ vals' = saved /\ tail' = "none" /\ res' = "ok" /\ UNCHANGED saved
+               \/ e.op = "reenter"   /\ AReenter /\ UNCHANGED saved
+               \* (e.bad: the handed-in text is not a single item of the interpretation -- refused, nothing changes)
                \* (e.hash: the NEW value begins with '#'.  Such values exist in fields -- only a '#' in column 0 of a
                \*  line starts a comment -- but handing one in is refused today: unspecified, the list stays consistent)
-               \/ e.op = "append"    /\ (AAppend(e.v) \/ (e.hash /\ Either(e))) /\ UNCHANGED saved
+               \/ e.op = "append"    /\ (IF e.bad THEN ARefuse(e.res) ELSE (AAppend(e.v) \/ (e.hash /\ Either(e)))) /\ UNCHANGED saved
                \/ e.op = "remove"    /\ (IF LHas(vals, e.v) THEN ARemove(e.v) ELSE Either(e)) /\ UNCHANGED saved
-               \/ e.op = "replace"   /\ (IF LHas(vals, e.v) THEN (AReplace(e.v, e.w) \/ (e.hash /\ Either(e))) ELSE Either(e))
+               \/ e.op = "replace"   /\ (IF e.bad THEN ARefuse(e.res)
+                                         ELSE IF LHas(vals, e.v) THEN (AReplace(e.v, e.w) \/ (e.hash /\ Either(e))) ELSE Either(e))
                                      /\ UNCHANGED saved
-               \/ e.op = "refset"    /\ (ARefSet(e.i, e.w) \/ (e.hash /\ e.i \in 1..Len(vals) /\ Either(e))) /\ UNCHANGED saved
+               \/ e.op = "refset"    /\ (IF e.bad THEN e.i \in 1..Len(vals) /\ ARefuse(e.res)
+                                         ELSE (ARefSet(e.i, e.w) \/ (e.hash /\ e.i \in 1..Len(vals) /\ Either(e)))) /\ UNCHANGED saved
                \/ e.op = "refremove" /\ ARefRemove(e.i) /\ UNCHANGED saved
                \/ e.op \in {"sep", "sep0"} /\ Tr.mode = "cm" /\ AAppendSep /\ UNCHANGED saved
                \/ e.op = "nl"        /\ (IF tail = "none" THEN AAppendNl ELSE Either(e)) /\ UNCHANGED saved
                \/ e.op = "cmt"       /\ AAppendCmt /\ UNCHANGED saved
-               \/ e.op \in {"reformat", "noreformat", "vfmt", "vfmtf"} /\ AReformat /\ UNCHANGED saved
-               \/ e.op = "abort"     /\ vals' = saved /\ tail' = "none" /\ res' = "ok" /\ UNCHANGED saved   \* AAbort: nothing written
-               \/ e.op = "close"     /\ IF e.res = "ok"
-                                        THEN saved' = vals /\ Same("ok")
-                                        ELSE /\ e.res = "ValueError" /\ CloseMayRefuse
-                                             /\ vals' = saved /\ tail' = "none" /\ res' = e.res /\ UNCHANGED saved
+               \/ e.op \in {"reformat", "noreformat", "vfmt", "vfmtf", "vfmtx", "vfmtxf"} /\ AReformat /\ UNCHANGED saved
+               \/ e.op = "abort"     /\ AAbort /\ UNCHANGED saved                        \* nothing written, the object keeps its edits
+               \/ e.op = "close"     /\ CASE e.res = "ok"         -> saved' = vals /\ Same("ok")
+                                          [] e.res = "ValueError" -> CloseMayRefuse /\ ARefuse(e.res) /\ UNCHANGED saved
+                                          \* the caller's formatter raised: its exception comes out, nothing is written
+                                          [] e.res = "Fault"      -> fmt = "faulty" /\ ARefuse(e.res) /\ UNCHANGED saved
+                                          [] OTHER                -> FALSE
+            /\ fmt' = CASE e.op \in {"open", "vfmt", "vfmtf"} -> "stock"
+                        [] e.op \in {"vfmtx", "vfmtxf"}       -> "faulty"
+                        [] OTHER                              -> fmt
             /\ res' = e.res              \* the call returned / raised what the reference says
-            /\ \/ e.obs = vals'          \* and the code shows the reference list
+            /\ \/ e.obs = (IF e.op \in {"close", "abort"} THEN saved' ELSE vals')      \* and the code shows the reference list
                \/ e.op = "close" /\ e.res = "ok" /\ vals = <<>>     \* (writing an EMPTY list is unspecified)
             /\ (e.op = "close" /\ vals # <<>>) => e.read = "ok"
             /\ e.doc = "ok"              \* and nothing else in the document moved
@@ -68,7 +79,7 @@ TStep == /\ l <= Len(Tr.events)
          /\ (Diag => PrintT(<<"AT", tid, l>>))
          /\ (l' = Len(Tr.events) + 1 => PrintT(<<"ACCEPTED", tid>>))
 
-TSpec == TInit /\ [][TStep]_<<avars, tid, l, saved>>
+TSpec == TInit /\ [][TStep]_<<avars, tid, l, saved, fmt>>
 \* values stay whole words / runs that start and end in a word
 \* machinery check: the harness' layout generator produced a layout of the automaton
 TLayoutOK == Len(Tr.lay) > 300 \/ WellFormed(Tr.mode, Tr.lay)      \* (quadratic: the big stress layouts are built by rule)
